@@ -442,6 +442,7 @@ type svWorkload struct {
 	wantDt    time.Duration
 	modShared bool
 	thrMoved        map[uint64]bool
+	killedMidBatch  bool
 	lastBatchPaused, lastBatchStarted bool
 	oneShotUpdated                    bool
 }
@@ -1097,6 +1098,17 @@ func (w *svWorkload) script(v *svSnap) []rig.Tx {
 			w.run.Count("one-shot-updated-mid-batch", 1)
 		}
 	}
+	// the context with frequency 9: killed by its consumer while batch 1 is in flight, just before every provider answers
+	// (the answers are still due; the batch keeps its queue entry until it is settled)
+	if !w.killedMidBatch {
+		if id := findCtx(c0, "", func(rc svtypes.RequestContext) bool {
+			return rc.Repeated && rc.RepeatedFrequency == 9 && rc.BatchCounter == 1 && rc.BatchState == svtypes.BATCHRUNNING && rc.State == svtypes.RUNNING
+		}); id != "" {
+			w.killedMidBatch = true
+			txs = append(txs, w.txCtxOp(c0, "kill", id, "", nil))
+			w.run.Count("context-killed-mid-batch-then-fully-answered(scripted)", 1)
+		}
+	}
 	// the module-owned contexts with frequency 7 / 8: the module moves their threshold while batch 1 is in flight
 	for _, fr := range []uint64{7, 8} {
 		if w.thrMoved[fr] {
@@ -1167,6 +1179,8 @@ func (w *svWorkload) script(v *svSnap) []rig.Tx {
 			w.txCall(w.poor, "svc-a", []*rig.Account{P[0]}, w.hugeCap(), 2, true, 2, -1, "scripted-poor"),
 			w.txCall(c1, "svc-b", []*rig.Account{P[2]}, w.hugeCap(), 3, false, 0, 0, "scripted"),
 			w.txCall(c1, "svc-a", []*rig.Account{P[0]}, w.hugeCap(), 3, true, 4, 2, "scripted-last-batch"),
+			// a context its consumer kills while batch 1 is in flight, in the block in which both providers then answer
+			w.txCall(c0, "svc-a", []*rig.Account{P[0], P[1]}, w.hugeCap(), 4, true, 9, -1, "scripted"),
 			w.txModCreate(c1, svCreateArgs{Service: "svc-a", Providers: []string{P[0].Addr.String(), P[1].Addr.String()}, Consumer: c1.Addr.String(), FeeCap: w.hugeCap().String(), Timeout: 2, Repeated: true, Freq: 3, Total: 2, Threshold: 2}, "scripted"),
 			// two more module-owned contexts whose threshold the module changes while batch 1 is in flight (only the first
 			// provider answers batch 1): issued with 2 and lowered to 1, issued with 1 and raised to 2. A batch is judged
